@@ -226,7 +226,10 @@ OSIM_NOSAN void schedTaskBegin(Task * t) {
     waitForBaton(t->id);
 }
 
-OSIM_NOSAN void schedTaskEnd(Task * t) { schedPoint(t, true); }
+OSIM_NOSAN void schedTaskEnd(Task * t) {
+    tl_task = nullptr; // whatever this thread still executes after handing the baton on is not simulated time
+    schedPoint(t, true);
+}
 
 OSIM_NOSAN void schedRun() {
     int64_t q = -1;
